@@ -317,7 +317,7 @@ def bycell_case(draw):
     if kind in ("commensurate", "fractional") and draw(st.integers(0, 2)) == 0:
         # many cells along one axis (mesh construction does not iterate over cells)
         ax = draw(st.integers(0, nd - 1))
-        big = draw(st.integers(40, 6000))
+        big = draw(st.one_of(st.integers(40, 6000), st.integers(6000, 3_000_000)))
         lo, hi = min(g["p1"][ax], g["p2"][ax]), max(g["p1"][ax], g["p2"][ax])
         cs = (hi - lo) / g["n"][ax]
         if isinstance(cs, float) and not cs.is_integer() or isinstance(lo, float):
@@ -380,6 +380,97 @@ def check_bycell(case):
                   "bycell-accepted", f"cell {cell} on edges {[float(e) for e in lat.edges]} ({kind})")
 
 
+@st.composite
+def mutated_case(draw):
+    g = draw(gen.geom(nmax=5, maxcells=200, exps=(-9, 3), big_offsets=False))
+    nd = len(g["n"])
+    ops = []
+    for _ in range(draw(st.integers(1, 3))):
+        kind = draw(st.sampled_from(["scale", "translate", "rot"]))
+        via = draw(st.sampled_from(["region", "mesh", "shared-mesh"]))
+        if kind == "scale":
+            ops.append(["scale", [draw(st.sampled_from([2, 0.5, 3, 1.5, 0.25])) for _ in range(nd)], via])
+        elif kind == "translate":
+            ops.append(["translate", [draw(st.sampled_from([0, 1, -2, 0.5, 7])) for _ in range(nd)], via])
+        elif nd >= 2:
+            a = draw(st.integers(0, nd - 1))
+            b = draw(st.integers(0, nd - 1).filter(lambda x: x != a))
+            ops.append(["rot", [a, b, draw(st.sampled_from([1, 3, -1, 2]))], via])
+    return {"g": g, "ops": ops, "touch": draw(st.sampled_from(["cell", "cells", "vertices", "index2point", "iterate", "all"]))}
+
+
+def touch(mesh, what):
+    if what in ("cell", "all"):
+        mesh.cell
+    if what in ("cells", "all"):
+        mesh.cells
+    if what in ("vertices", "all"):
+        mesh.vertices
+    if what in ("index2point", "all"):
+        mesh.index2point(tuple(0 for _ in mesh.n))
+    if what in ("iterate", "all"):
+        next(iter(mesh))
+        mesh.coordinate_field()
+
+
+def check_after_mutation(case):
+    """the lattice relations hold again after the region was changed in place (directly, through the mesh, or through
+    another mesh sharing the region) - derived quantities must not be remembered from before"""
+    import discretisedfield as df
+
+    g = dict(case["g"])
+    region = gen.build_region(g)
+    mesh = df.Mesh(region=region, n=g["n"])
+    other = df.Mesh(region=region, n=g["n"])  # shares the Region object
+    dims = gen.dims_of(g)
+    cell0 = [float(c) for c in gen.lattice_of(g).cell]
+    for op, arg, via in case["ops"]:
+        touch(mesh, case["touch"])
+        tgt = {"region": region, "mesh": mesh, "shared-mesh": other}[via]
+        tag(f"{op}-via-{via}")
+        if op == "scale":
+            tgt.scale(tuple(float(x) for x in arg), inplace=True)
+        elif op == "translate":
+            tgt.translate(tuple(a * c for a, c in zip(arg, cell0)), inplace=True)
+        else:
+            a, b, k = arg
+            if via == "region":
+                # a bare region knows nothing about cell counts: keep n consistent by a half turn only
+                k = 2
+            tgt.rotate90(dims[a], dims[b], k=k, inplace=True)
+            if via == "shared-mesh" and k % 2:
+                # 'other' swapped its own n; 'mesh' keeps n and sees the new (swapped) edge lengths
+                pass
+        # expected lattice from the region's current corners and the mesh's current n
+        g2 = {"p1": [float(x) for x in mesh.region.pmin], "p2": [float(x) for x in mesh.region.pmax],
+              "n": [int(i) for i in mesh.n], "exp": g["exp"], "dims": g.get("dims"), "units": list(mesh.region.units), "tol": g.get("tol")}
+        lat = gen.lattice_of(g2)
+        nd = lat.ndim
+        for d in range(nd):
+            if abs(F(float(mesh.cell[d])) - lat.cell[d]) > 8 * F(2.3e-16) * lat.cell[d]:
+                raise Violation("stale-cell", f"after {op} via {via}: mesh.cell[{d}] = {mesh.cell[d]!r}, edges/n = {float(lat.cell[d])!r}")
+        cells, verts = mesh.cells, mesh.vertices
+        for d in range(nd):
+            cd, vd = cells[d], verts[d]
+            for i in range(lat.n[d]):
+                if not lat.close(cd[i], lat.vertex(d, i) + lat.cell[d] / 2, d):
+                    raise Violation("stale-cells", f"after {op} via {via}: axis {d} centre {i} = {cd[i]!r}")
+            for k2 in range(lat.n[d] + 1):
+                if not lat.close(vd[k2], lat.vertex(d, k2), d):
+                    raise Violation("stale-vertices", f"after {op} via {via}: axis {d} vertex {k2} = {vd[k2]!r}")
+        for idx in list(lat.indices())[:: max(1, len(mesh) // 40)]:
+            p = mesh.index2point(idx)
+            c = lat.centre(idx)
+            if not all(lat.close(p[d], c[d], d) for d in range(nd)):
+                raise Violation("stale-index2point", f"after {op} via {via}: cell {idx} -> {p}")
+            if tuple(mesh.point2index(p)) != tuple(idx):
+                raise Violation("stale-point2index", f"after {op} via {via}: {idx} -> {p} -> {mesh.point2index(p)}")
+        cf = mesh.coordinate_field()
+        idx = tuple(k2 - 1 for k2 in lat.n)
+        if not all(lat.close(cf.array[idx][d], lat.centre(idx)[d], d) for d in range(nd)):
+            raise Violation("stale-coordinate-field", f"after {op} via {via}")
+
+
 def enum_small(tier):
     """Complete enumeration: all n in 1..4 per axis for ndim<=3 on a non-representable lattice."""
     top = 4 if tier == "quick" else 6
@@ -393,6 +484,7 @@ def enum_small(tier):
 
 
 SUBS = [
+    Sub("after-mutation", check_after_mutation, mutated_case(), nontrivial=nontrivial, quick=400, thorough=2500),
     Sub("lattice", check_lattice, lattice_case(), nontrivial=nontrivial, quick=400, thorough=3000),
     Sub("lattice-enum", check_lattice, enum=enum_small, nontrivial=nontrivial),
     Sub("probe-inside", check_probe_inside, probe_case(), nontrivial=nontrivial, quick=1500, thorough=10000),
